@@ -1,5 +1,6 @@
 """C05 — let substitution (with overrides) preserves meaning in the chosen environment."""
 from ._generic import make, STD_TRUST
+from ..extra_c05 import extra_run, matches_known
 
 globals().update(
     make(
@@ -7,6 +8,8 @@ globals().update(
         props=["JaqalProofs/Props/C05.lean"],
         targets=["JaqalProofs.Props.C05"],
         diffs=[("harness.agents.pass2_diff", 700, 4000)],
+        extra_run=extra_run,
+        known_matcher=matches_known,
         trusted=[
             STD_TRUST,
             "hand-written model JaqalModel/Model/FillIn.lean: LetFiller / RegisterVisitor as a visitor producing an S-expression with embedded objects, followed by the builder model (Model/Builder.lean) with the circuit's native gates injected and autoload off — the rebuild re-runs every constructor check on the substituted values",
